@@ -285,6 +285,9 @@ func (i *interpreter) marshalValue(fr *frame, t types.Type, v value, addr *value
 			return &jnode{kind: jNull}
 		}
 	}
+	if isTimeType(t) {
+		return &jnode{kind: jTime, timeV: copyVal(v)}
+	}
 	if _, isIface := t.Underlying().(*types.Interface); !isIface {
 		if m := i.findMethod(t, "MarshalJSON"); m != nil {
 			return i.callMarshaler(fr, m, v)
@@ -709,7 +712,7 @@ func (u *unmarshalState) decode(n *jnode, t types.Type, addr *value, depth int) 
 		unsupportedf("json.Unmarshal recursion too deep")
 	}
 	// Unmarshaler on *T
-	if _, isIface := t.Underlying().(*types.Interface); !isIface {
+	if _, isIface := t.Underlying().(*types.Interface); !isIface && !isTimeType(t) {
 		pt := types.NewPointer(t)
 		if _, isPtr := t.Underlying().(*types.Pointer); !isPtr {
 			if m := i.findMethod(pt, "UnmarshalJSON"); m != nil {
@@ -1006,4 +1009,23 @@ func init() {
 			return args[0].(*modelErr).msg
 		})
 	}
+}
+
+func init() {
+	reg("(*encoding/json.RawMessage).UnmarshalJSON", func(i *interpreter, fr *frame, args []value) value {
+		p := args[0].(*value)
+		if p == nil {
+			return i.newErr("json.RawMessage: UnmarshalJSON on nil pointer")
+		}
+		d, _ := args[1].([]value)
+		*p = append([]value(nil), d...)
+		return iface{}
+	})
+	reg("(encoding/json.RawMessage).MarshalJSON", func(i *interpreter, fr *frame, args []value) value {
+		d, _ := args[0].([]value)
+		if d == nil {
+			return tuple{[]value{&jsonBlob{raw: []byte("null")}}, iface{}}
+		}
+		return tuple{d, iface{}}
+	})
 }
